@@ -261,7 +261,18 @@ def case_term(case, obs):
     evs = []
     prev_state = None
     last = min(len(case["events"]), len(obs)) - 1
-    for idx, (e, o) in enumerate(zip(case["events"], obs)):
+    # Shutdown walks the session store (a sync.Map) in an order the runtime chooses: when one event ends two or more
+    # sessions that hold UPF-chosen UE addresses, the order in which the addresses go back to the pool's free list - and
+    # with it every later allocation - is not determined by the history. The model frees in list order, so the
+    # comparison stops at such an event (C06 / C11_ippool_renaming cover the pool up to a renaming of addresses).
+    inv_prev = 0
+    for idx, o in enumerate(obs[:last + 1]):
+        inv = len((o.get("pools") or {}).get("ip_inv", []) or [])
+        if inv_prev - inv >= 2:
+            last = idx
+            break
+        inv_prev = inv
+    for idx, (e, o) in enumerate(list(zip(case["events"], obs))[:last + 1]):
         state = json.dumps([o.get("tables"), o.get("store"), o.get("pools")], sort_keys=True)
         # number literals dominate coqc's time: the full state is compared at the last event, after teardown /
         # restart, after every rejected modification (slice aliasing) and at every 5th event that changed it
